@@ -15,7 +15,7 @@ LEVEL = "other"
 FUNCS = [("matrix_functions.py", f) for f in ("matrix_eigenvectors", "_compute_orthogonal_iterations", "matrix_eigenvalue_decomposition", "check_diagonal")]
 TRUSTED = [
     "ASSUMED LAPACK contracts: eigh returns orthonormal eigenvectors with ascending eigenvalues that diagonalise A; qr(M).Q is orthonormal with the column space of M; a column permutation preserves orthonormality",
-    "QR max_iterations enumerated (2) with symbolic tolerance; the loop structure (first update unconditional because the initial error is inf) is proved",
+    "QR loop under a LOOP CONTRACT (vlib/loops.py, segments compiled from the function's own statements on every run): for EVERY max_iterations (symbolic) each iteration is Q <- qr(A @ Q).Q of the current Q, no iteration happens only for an empty budget (initial error is inf), and the result is the final Q column-sorted by Rayleigh quotient; additionally whole-function enumeration with max_iterations = 2. Termination not proved",
     "orthonormality, ordering, diagonalisation residuals and the fixed-point-up-to-sign clause are BOUNDED ONLY (sizes 1..32 / 64, repeated eigenvalues, float32/float64)",
 ]
 ASSUMPTIONS = ["A symmetric"]
@@ -25,10 +25,12 @@ EXPLANATION = ("control flow and data flow around the dense kernels are discharg
 
 def cases(tier):
     cs = [f"eigvec/{c}/{s}/{d}" for c in ("eigh", "qr", "unknown") for s in ("scalar0", "scalar11", "vec", "rect", "cube", "square") for d in ("d0", "d1")]
-    return cs + ["checkdiag"]
+    return cs + ["checkdiag", "loop/qr"]
 
 
 def run_case(case, tier, seed):
+    if case == "loop/qr":
+        return mf.run_qr_loop(case)
     if case.startswith("eigvec/"):
         return mf.run_eigvec(case)
     return mf.run_checkdiag(case)
